@@ -17,9 +17,10 @@ IPA, IPB = '192.168.0.1', '192.168.0.2'
 
 
 class Pair:
-    def __init__(self, seed=0, recorder=None, **conf):
+    def __init__(self, seed=0, recorder=None, ips=None, **conf):
         self.sim = Sim(seed)
         self.conf = conf
+        self.ipa, self.ipb = ips or (IPA, IPB)
         self.history = []          # every datagram ever sent (src, dst, bytes)
         self.delivered = []        # every datagram delivered by a 'deliver' action (src, dst, bytes)
         self.steps = []            # (action, sent datagrams)
@@ -28,9 +29,9 @@ class Pair:
 
     def __enter__(self):
         self.sim.__enter__()
-        ca, cb = conf_pair(IPA, IPB, **self.conf)
-        self.A = self.sim.add_endpoint('A', [IPA], ca)
-        self.B = self.sim.add_endpoint('B', [IPB], cb)
+        ca, cb = conf_pair(self.ipa, self.ipb, **self.conf)
+        self.A = self.sim.add_endpoint('A', [self.ipa], ca)
+        self.B = self.sim.add_endpoint('B', [self.ipb], cb)
         return self
 
     def __exit__(self, *a):
@@ -53,7 +54,7 @@ class Pair:
         sent = []
         if kind == 'acquire':
             ep = self.ep(action[1])
-            me, peer = (IPA, IPB) if action[1] == 'A' else (IPB, IPA)
+            me, peer = (self.ipa, self.ipb) if action[1] == 'A' else (self.ipb, self.ipa)
             index = ep.configuration.ike_configurations[(ep.addrs[0], self.other(action[1]).addrs[0])].protect[0].index
             proto = int(ep.configuration.ike_configurations[(ep.addrs[0], self.other(action[1]).addrs[0])]
                         .protect[0].my_ts.ip_proto)
